@@ -178,7 +178,7 @@ PROFILE = {
     # answers (Accept-Encoding with a low threshold), both
     'client_flavours': ['plain', 'plain', 'plain', 'jsonp', 'gzip', 'jsonp+gzip'],
     'weights': {'open': 3, 'poll': 5, 'post': 1, 'probe_step': 6, 'ws_send': 1, 'ws_close': 1,
-                'ws_fail': 1, 'pong': 1, 'app_send': 8, 'app_burst': 1, 'advance': 3},
+                'ws_fail': 1, 'ws_soft_fail': 1, 'pong': 1, 'app_send': 8, 'app_burst': 1, 'advance': 3},
     'max_sessions': 3,
     'packet_kinds': [('msg', 4), ('pong', 2), ('upgrade', 1)],
     'post_modes': [('pkts', 1)],
